@@ -120,11 +120,18 @@ func (rp *rawPeer) barrier() bool {
 }
 
 func (rp *rawPeer) shutdown() {
-	rp.p.S.Close()
+	// nothing here may block for good: with a wedged serve loop the session's
+	// output lock is never released
+	closed := make(chan struct{})
+	go func() { rp.p.S.Close(); close(closed) }()
+	select {
+	case <-closed:
+	case <-time.After(2 * time.Second):
+	}
 	rp.p.ClosePeer()
 	select {
 	case <-rp.served:
-	case <-time.After(5 * time.Second):
+	case <-time.After(2 * time.Second):
 	}
 	rp.p.Lib.Close()
 	rp.p.Peer.Close()
